@@ -257,6 +257,89 @@ def _results(ctx, kinds, rule_mix, rule_res, sinks):
     return [res_mix, res_res]
 
 
+PROD_REDUCTIONS = {"prod", "cumprod", "det"}
+
+
+def logspace_rule(ctx):
+    """NUM-LOGSPACE: log-densities and log-dets are accumulated in log space.  `log(prod(d))` /
+    `log|det M|` through the determinant under- or overflows in float32 for products of many
+    moderate factors (0.1 ** 50 == 0 in float32) where `sum(log(d))` stays finite -- the
+    'stays finite on moderate parameters' clause.  Decided per log call: its argument, with
+    single-assignment locals resolved and abs / clamp / positive shifts peeled, must not be a
+    product reduction.  (A structural necessary condition; agreement to single precision is
+    numerical analysis and stays declined.)"""
+    import ast
+
+    from ..astutil import const_number
+
+    p = ctx.p
+    res = RuleResult("NUM-LOGSPACE", "no log is taken of a product reduction (prod / cumprod / det): log-dets and log-densities are sums of logs")
+    n = 0
+    for mi in p.modules.values():
+        if not (mi.name.startswith("nflows.transforms") or mi.name.startswith("nflows.distributions") or mi.name.startswith("nflows.flows") or mi.name == "nflows.utils.torchutils"):
+            continue
+        for fn in ast.walk(mi.tree):
+            if not isinstance(fn, ast.FunctionDef):
+                continue
+            # single-assignment locals of this function
+            defs = {}
+            for st in ast.walk(fn):
+                if isinstance(st, ast.Assign) and len(st.targets) == 1 and isinstance(st.targets[0], ast.Name):
+                    defs.setdefault(st.targets[0].id, []).append(st.value)
+                elif isinstance(st, (ast.AugAssign, ast.For)) and isinstance(getattr(st, "target", None), ast.Name):
+                    defs.setdefault(st.target.id, []).append(None)
+
+            def peel(e, depth=0):
+                while depth < 8:
+                    depth += 1
+                    if isinstance(e, ast.Name) and len(defs.get(e.id, [])) == 1 and defs[e.id][0] is not None:
+                        e = defs[e.id][0]
+                        continue
+                    if isinstance(e, ast.Call):
+                        f = e.func
+                        last = f.attr if isinstance(f, ast.Attribute) else (f.id if isinstance(f, ast.Name) else "")
+                        if last in ("abs", "clamp", "clamp_min", "float", "double", "squeeze", "reshape", "view"):
+                            is_mod = isinstance(f, ast.Attribute) and isinstance(f.value, ast.Name) and f.value.id in ("torch", "F", "np")
+                            e = (e.args[0] if e.args else e) if is_mod or not isinstance(f, ast.Attribute) else f.value
+                            continue
+                    if isinstance(e, ast.BinOp) and isinstance(e.op, ast.Add):
+                        if const_number(e.right) is not None or (isinstance(e.right, ast.Attribute) and "eps" in e.right.attr):
+                            e = e.left
+                            continue
+                        if const_number(e.left) is not None or (isinstance(e.left, ast.Attribute) and "eps" in e.left.attr):
+                            e = e.right
+                            continue
+                    return e
+                return e
+
+            for c in ast.walk(fn):
+                if not (isinstance(c, ast.Call) and isinstance(c.func, ast.Attribute) and c.func.attr == "log"):
+                    continue
+                is_mod = isinstance(c.func.value, ast.Name) and c.func.value.id in ("torch", "np", "math")
+                arg = (c.args[0] if c.args else None) if is_mod else c.func.value
+                if arg is None:
+                    continue
+                if is_mod and c.func.value.id in ("np", "math"):
+                    continue  # Python-level constants
+                n += 1
+                a = peel(arg)
+                if isinstance(a, ast.Call):
+                    f = a.func
+                    last = f.attr if isinstance(f, ast.Attribute) else (f.id if isinstance(f, ast.Name) else "")
+                    if last in PROD_REDUCTIONS:
+                        qual = fn.name
+                        par = getattr(fn, "_parent", None)
+                        while par is not None:
+                            if isinstance(par, (ast.ClassDef, ast.FunctionDef)):
+                                qual = par.name + "." + qual
+                            par = getattr(par, "_parent", None)
+                        res.fail(Finding("NUM-LOGSPACE", mi, qual, c, "log of `%s`: the product of many moderate factors under-/overflows in float32 although the sum of their logs is finite (0.1 ** 50 == 0.0 in float32)" % norm_text(a)[:60]))
+    if n < 40:
+        raise AnalysisIncomplete("NUM-LOGSPACE: %d log calls examined (< 40 confirmed by hand)" % n)
+    res.ok("%d tensor log calls examined, none of a product reduction" % n)
+    return res
+
+
 def c19_rules(ctx):
     out = _results(ctx, ("transform", "distribution", "spline"), "DT-MIX", "DT-RESULT", SINKS)
     if len(out[1].instances) < 100:
@@ -273,8 +356,11 @@ def c20_dtype(ctx):
 
 register(
     "C19",
-    [c19_rules],
-    "Dtype-provenance abstract interpretation over forward/inverse of every Transform, log_prob of every Distribution and the "
+    [c19_rules, logspace_rule],
+    "NUM-LOGSPACE: every tensor log call in transforms / distributions / flows / torchutils is examined; its argument, with "
+    "single-assignment locals resolved and abs / clamp / +eps peeled, must not be a prod / cumprod / det reduction (a log-det "
+    "or log-density must be a sum of logs: the product of 50 factors of 0.1 is 0.0 in float32) -- a structural necessary "
+    "condition of the 'stays finite' clause. Dtype-provenance abstract interpretation over forward/inverse of every Transform, log_prob of every Distribution and the "
     "spline functions: every tensor value carries the set of possible provenances of its dtype (M follows parameters/buffers/"
     "arguments and is converted by .double(); D fixed/default float -- torch.eye/zeros/linspace/tensor without dtype=, .float(), "
     ".type(torch.Tensor), tensor-valued plain attributes; I integer/bool) with torch's promotion order I < D < M. DT-MIX: a "
